@@ -440,9 +440,53 @@ pub fn gen_case(id: &str, rng: &mut Rng) -> Result<(Vec<u8>, Vec<Inj>, Vec<(u32,
                 }
             }
         }
+        // C17-C20: 1 function in 3 also carries probes of OTHER special modes (not asserted here; they must not disturb the asserted ones)
+        if id != "C16" && rng.chance(1, 3) {
+            let own = match id {
+                "C18" => Mode::BlockEntry,
+                "C19" => Mode::BlockExit,
+                "C20" => Mode::SemAfter,
+                _ => Mode::FuncEntry,
+            };
+            for _ in 0..rng.range(1, 2) {
+                let m = *rng.pick(&[Mode::BlockEntry, Mode::BlockExit, Mode::SemAfter, Mode::FuncEntry, Mode::FuncExit]);
+                if m == own || (id == "C17" && m == Mode::FuncExit) {
+                    continue;
+                }
+                match m {
+                    Mode::FuncEntry | Mode::FuncExit => {
+                        if !plan.iter().any(|i| i.func == fid && i.mode == m) {
+                            push(&mut plan, fid, 0, m, Probe::Host, rng);
+                        }
+                    }
+                    _ => {
+                        let c: Vec<usize> = st.blockish.iter().cloned().filter(|b| m != Mode::SemAfter || ops[*b].name != "Loop").collect();
+                        if !c.is_empty() {
+                            let b = *rng.pick(&c);
+                            if !plan.iter().any(|i| i.func == fid && i.at == b && i.mode == m) {
+                                push(&mut plan, fid, b, m, Probe::Host, rng);
+                            }
+                        }
+                    }
+                }
+            }
+        }
     }
     // function-level modes last (they are sticky on iterators)
     plan.sort_by_key(|i| matches!(i.mode, Mode::FuncEntry | Mode::FuncExit));
+    // C17: after function-level probes were issued through an iterator, a FunctionModifier obtained for the same function starts
+    // with a clean mode: an ordinary probe injected through it belongs to its instruction (1 function in 4)
+    if id == "C17" {
+        let mut extra = vec![];
+        for i in plan.iter().filter(|i| matches!(i.mode, Mode::FuncEntry | Mode::FuncExit) && i.path == Path::Iter) {
+            if rng.chance(1, 4) && !extra.iter().any(|e: &Inj| e.func == i.func) {
+                let n = raw.funcs[(i.func - raw.n_imp_funcs) as usize].ops.len();
+                extra.push(Inj { func: i.func, at: rng.below(n), mode: Mode::Before, path: Path::Modifier, uid, n_ops: 1, leading_drop: false, probe: Probe::Host });
+                uid += 1;
+            }
+        }
+        plan.extend(extra);
+    }
     if plan.is_empty() {
         return Err("empty plan (no applicable site)".into());
     }
